@@ -45,8 +45,8 @@ CLAIMED.update({
 CLAIMED.update({
  'C11': dict(
    technique='Lean 4 proof: prefix-failure theorem by mutual structural induction for the three readers (generic reader: ReadError; slice full reader and ε-copy reader: error or panic, never a value), header included; tied by cutting real streams at every byte',
-   text='Kernel-checked: prefix_full (every strict prefix of every serialized stream makes deserialize_full return ReadError), prefix_eps (deserialize_eps of the prefix at any base address is an error or a bounds-check panic, never a value), checkHeader_prefix, body-level versions at any stream position. The run truncates real streams at every cut point and compares both modes with the model and the oracle.',
-   note='"does not read outside the prefix" holds in the model by construction (readers only see the prefix); at run time it is exercised on exact-length heap copies, not proved. File-backed entry points (load_full, mmap of the truncated file) are exercised by the C08 loader checks.',
+   text='Kernel-checked: prefix_full (every strict prefix of every serialized stream makes deserialize_full return ReadError), prefix_eps (deserialize_eps of the prefix at any base address is an error or a bounds-check panic, never a value), checkHeader_prefix, body-level versions at any stream position, file_prefix_load_full / file_prefix_mmap (the file-backed entry points that do not zero-extend: the region of mmap is the file itself). The run truncates real streams at every cut point and compares both modes with the model and the oracle, and stores files cut at sampled points and loads them through load_full, mmap, load_mem, load_mmap (error kind compared with the model; load_full must give a read error, mmap must not return a structure).',
+   note='"does not read outside the prefix" holds in the model by construction (readers only see the prefix); at run time it is exercised on exact-length heap copies and on files of exactly the prefix length, not proved. The two zero-extending loaders are outside the clause: their outcome on truncated files is compared with the model only.',
    design='5/C11'),
 })
 
